@@ -39,6 +39,7 @@ func draw(foreign bool) func(t *rapid.T) *pbt.Case {
 		}
 		c.SetStr("alphabet", alpha)
 		c.Spec = gen.Default(sg).Boost(4, annotationKinds...).Draw(t, rapid.IntRange(1, maxB).Draw(t, "budget"))
+		gen.SprinkleRepeats(t, c.Spec)
 		c.SetInt("hops", rapid.IntRange(1, maxK).Draw(t, "hops"))
 		if foreign {
 			// Construct the feature: put an errno at one leaf position.
